@@ -165,6 +165,8 @@ type builder struct {
 	tags     map[string]bool
 	lcg      uint64
 	cur      *ent // schema entity under construction
+	// taintSeen counts picks of recursive (or recursion-containing) schemas
+	taintSeen int
 	// safeNames: only names that need no percent-encoding in a URI fragment
 	safeNames bool
 }
@@ -234,11 +236,30 @@ func (b *builder) home(k Kind) (string, []string) {
 		b.tag("weird-name")
 		return fmt.Sprintf("%s%d", w, id)
 	}
+	rootComponentsOK := !(k == KPathItem && !b.v31)
+	// the same pointer in two different documents: the location part of a
+	// reference key matters
+	if (k == KSchema || k == KResponse || k == KReqBody) && !b.allow {
+		// known finding: two schemas/responses/request bodies with one name in
+		// different documents get the same Go type name
+	} else if len(b.ext) > 0 && len(b.ents[k]) > 0 && b.pct(15, "same-pointer") {
+		o := b.ents[k][b.n(0, len(b.ents[k])-1, "same-pointer-of")]
+		if o.path[0] == "components" || o.path[0] == "defs" {
+			files := append([]string(nil), b.ext...)
+			if o.path[0] == "components" && rootComponentsOK && k != KSec {
+				files = append(files, rootFile)
+			}
+			f := files[b.n(0, len(files)-1, "same-pointer-file")]
+			if f != o.file && b.docs[f].At(o.path) == nil {
+				b.tag("same-pointer-in-two-files")
+				return f, append([]string(nil), o.path...)
+			}
+		}
+	}
 	choice := b.u100("home")
 	if len(b.ext) == 0 && choice >= 65 {
 		choice = choice % 65
 	}
-	rootComponentsOK := !(k == KPathItem && !b.v31)
 	switch {
 	case choice < 45 && rootComponentsOK:
 		return rootFile, []string{"components", containerOf[k], plain}
@@ -407,8 +428,11 @@ func (b *builder) schemaUse(file string, depth int, want string) *Node {
 	}
 	if b.pct(62, "schema-ref") {
 		if e := b.pick(KSchema, okFor); e != nil {
-			if b.cur != nil && e.final().tainted {
-				b.cur.tainted = true
+			if e.final().tainted {
+				b.taintSeen++
+				if b.cur != nil {
+					b.cur.tainted = true
+				}
 			}
 			return b.refTo(file, e)
 		}
@@ -459,13 +483,27 @@ func (b *builder) schemaBody(e *ent, file string, depth int, want string) *Node 
 		np := b.n(1, 3, "nprops")
 		for i := 0; i < np; i++ {
 			name := fmt.Sprintf("f%d", b.next())
+			before := b.taintSeen
 			props.Set(name, b.schemaUse(file, depth+1, "any"))
 			if b.pct(50, "required") {
-				req = append(req, name)
+				if b.taintSeen != before && !b.allow {
+					// known finding: a required member whose type reaches a recursive
+					// schema is reported as infinite recursion when its struct is
+					// checked before the cycle has been broken (name order)
+					b.excluded["required-member-reaching-recursive-schema"]++
+				} else {
+					req = append(req, name)
+				}
 			}
 		}
 		// the same schema entity once as required and once as optional member
-		if t := b.pick(KSchema, nil); t != nil && b.pct(25, "req+opt") {
+		if t := b.pick(KSchema, func(x *ent) bool { return b.allow || !x.final().tainted }); t != nil && b.pct(25, "req+opt") {
+			if t.final().tainted {
+				b.taintSeen++
+				if b.cur != nil {
+					b.cur.tainted = true
+				}
+			}
 			a, o := fmt.Sprintf("f%d", b.next()), fmt.Sprintf("f%d", b.next())
 			props.Set(a, b.refTo(file, t)).Set(o, b.refTo(file, t))
 			req = append(req, a)
